@@ -680,6 +680,32 @@ pub fn run_property(p: &Property, ctx: &Ctx, only_sub: Option<&str>) -> i32 {
     let known = load_known();
     let t0 = Instant::now();
     let mut reports = Vec::new();
+    // Regression corpus first: saved (shrunk) cases of earlier findings, replayed without proptest.
+    let mut regress_fail: Vec<(PathBuf, String)> = Vec::new();
+    let mut regress_run = 0u64;
+    let dir = PathBuf::from(VERIF_ROOT).join("regress").join(p.id);
+    if only_sub.is_none() {
+        if let Ok(rd) = std::fs::read_dir(&dir) {
+            let mut files: Vec<PathBuf> = rd.filter_map(|e| e.ok().map(|e| e.path())).filter(|p| p.extension().is_some_and(|x| x == "json")).collect();
+            files.sort();
+            for f in files {
+                let Ok(text) = std::fs::read_to_string(&f) else { continue };
+                let Ok(v) = serde_json::from_str::<Value>(&text) else { continue };
+                let Some(s) = p.subs.iter().find(|s| Some(s.name()) == v["sub"].as_str()) else { continue };
+                regress_run += 1;
+                match s.replay(v["case"].clone()) {
+                    Ok(Ok(_)) => {},
+                    Ok(Err(fl)) => {
+                        let known_open = known.iter().any(|k| k.property == p.id && k.status == "open" && k.signature == fl.sig);
+                        if !known_open {
+                            regress_fail.push((f.clone(), format!("[{}] {}", fl.sig, fl.msg)));
+                        }
+                    },
+                    Err(e) => eprintln!("  regression file {} not decodable: {e}", f.display()),
+                }
+            }
+        }
+    }
     for s in &p.subs {
         if let Some(o) = only_sub {
             if s.name() != o {
@@ -700,6 +726,15 @@ pub fn run_property(p: &Property, ctx: &Ctx, only_sub: Option<&str>) -> i32 {
     }
     let mut exit = 0;
     let mut violations = 0;
+    for (path, reason) in &regress_fail {
+        println!("FAILURE property={} sub=regression reason={}", p.id, reason.replace('\n', " | "));
+        println!("VIOLATION property={} replay={}", p.id, path.display());
+        exit = 1;
+        violations += 1;
+    }
+    if regress_run > 0 {
+        eprintln!("  [{}/regression corpus] replayed={} failing={}", p.id, regress_run, regress_fail.len());
+    }
     for r in &reports {
         if let Some((path, reason)) = &r.violation {
             println!("FAILURE property={} sub={} reason={}", p.id, r.name, reason.replace('\n', " | "));
@@ -713,12 +748,12 @@ pub fn run_property(p: &Property, ctx: &Ctx, only_sub: Option<&str>) -> i32 {
         println!("KNOWN-FINDING: property={} {}", p.id, k.what);
     }
     if only_sub.is_none() && std::env::var_os("VERIF_NO_EVIDENCE").is_none() {
-        write_evidence(p, ctx, &reports, violations, t0.elapsed().as_secs_f64());
+        write_evidence(p, ctx, &reports, violations, t0.elapsed().as_secs_f64(), regress_run);
     }
     exit
 }
 
-fn write_evidence(p: &Property, ctx: &Ctx, reports: &[SubReport], violations: usize, wall: f64) {
+fn write_evidence(p: &Property, ctx: &Ctx, reports: &[SubReport], violations: usize, wall: f64, regress_run: u64) {
     let evaluations: u64 = reports.iter().map(|r| r.evaluations).sum();
     let distinct: u64 = reports.iter().map(|r| r.distinct_nontrivial).sum();
     let mut labels = serde_json::Map::new();
@@ -759,6 +794,7 @@ fn write_evidence(p: &Property, ctx: &Ctx, reports: &[SubReport], violations: us
             "sub_checks": subs,
             "excluded_known": excluded,
             "shards": ctx.shards,
+            "regression_replays": regress_run,
             "distinctness": "generated cases: 64-bit hash of the serialised case, counted only when non-trivial by the sub-check's rule; enumerated cases: distinct by construction",
         },
         "assumptions": p.assumptions,
